@@ -133,6 +133,7 @@ func init() {
 				"metadata": map[string]interface{}{"labels": map[string]interface{}{"app": "demo", "tier": "x"}, "annotations": map[string]interface{}{"note": "hello"}},
 				"spec":     c02Tree(rng, 4, declared)}
 			tps := []experimentsv1beta1.TrialParameterSpec{}
+			specParams := []experimentsv1beta1.ParameterSpec{}
 			assigns := []commonv1beta1.ParameterAssignment{}
 			sigma := map[string]string{}
 			ptoks := []string{}
@@ -166,6 +167,14 @@ func init() {
 					ref = fmt.Sprintf("hp%d", j)
 					rtok = "assign " + hx(ref)
 					val = pick(rng, vals)
+					if !yamlSrc && rng.Intn(3) == 0 {
+						// whatever text the algorithm printed is the value: integers in float notation, signs, exponents
+						val = pick(rng, []string{"100.0", "20.0", "0.0", "16.0", "10", "1e2", "+5", "-0", "007", "0.50", "2."})
+					}
+					// the search space declares the parameter with a type; the substitution does not depend on it
+					specParams = append(specParams, experimentsv1beta1.ParameterSpec{Name: ref,
+						ParameterType: pick(rng, []experimentsv1beta1.ParameterType{"int", "double", "categorical", "discrete", "int"}),
+						FeasibleSpace: experimentsv1beta1.FeasibleSpace{Min: "0", Max: "1000"}})
 					if rng.Intn(25) == 0 {
 						expectErr = true // the trial parameter's assignment is missing
 					} else {
@@ -186,6 +195,9 @@ func init() {
 			}
 			e := &experimentsv1beta1.Experiment{ObjectMeta: metav1.ObjectMeta{Name: "e", Namespace: "ns"}, Spec: experimentsv1beta1.ExperimentSpec{
 				TrialTemplate: &experimentsv1beta1.TrialTemplate{TrialParameters: tps}}}
+			if rng.Intn(4) != 0 {
+				e.Spec.Parameters = specParams
+			}
 			cl := fake.NewClientBuilder().WithScheme(valScheme)
 			tplStr, _ := kutil.ConvertUnstructuredToString(&unstructured.Unstructured{Object: obj})
 			if fromCM {
